@@ -276,3 +276,72 @@ func RQuickOmit(c *core.Ctx) {
 	run("emitCapture / a capture whose slot is in use is kept", map[string]bool{slots + " == nil": false, uncap + " == -1": true, capn + " >= 0": true, capn + " >= len(" + slots + ")": false, slots + "[" + capn + "]": true},
 		"a slot marked in CaptureSlotInUse is read by the pattern itself (backreference, condition, balancing group)")
 }
+
+// ---------------------------------------------------------------------------
+// R-LIVEOPS: every opcode that reads capture state keeps its group alive.
+// The quick program drops the captures of groups nothing reads.  "Reads" is
+// what the interpreter does: an opcode whose forward clause asks the match
+// for isMatched / matchIndex / matchLength (Ref, Testref, Capturemark with a
+// second operand) decides on the captured state of the group named by its
+// operand.  captureSlotsInUse, which computes the groups to keep, has to have
+// a case for each of those opcodes.
+// ---------------------------------------------------------------------------
+
+func RLiveOps(c *core.Ctx) {
+	c.Rule("R-LIVEOPS", "every opcode whose forward interpreter clause consults the capture state of a group (calls Match.isMatched / matchIndex / matchLength) is a case label of the opcode switch in captureSlotsInUse, so the group it names is kept in the capture-free quick program", 3)
+	p := c.P
+	m := buildOpModel(c)
+	syn := p.Pkg("syntax")
+	fd, _ := p.DeclOf(p.LookupFunc("syntax", "captureSlotsInUse"))
+	if !m.ok || fd == nil {
+		c.Anchor("bytecode model / syntax.captureSlotsInUse")
+		return
+	}
+	c.Visit("syntax.captureSlotsInUse")
+	rinfo := p.Pkg("").TypesInfo
+	readers := map[*types.Func]bool{}
+	for _, n := range []string{"isMatched", "matchIndex", "matchLength"} {
+		if f := p.LookupFunc("", "Match."+n); f != nil {
+			readers[f] = true
+		} else {
+			c.Anchor("regexp2.Match." + n)
+			return
+		}
+	}
+	// labels of the switch in captureSlotsInUse
+	labels := map[int64]bool{}
+	ast.Inspect(fd.Body, func(x ast.Node) bool {
+		if cc, ok := x.(*ast.CaseClause); ok {
+			for _, e := range cc.List {
+				if v, ok := core.ConstInt(syn.TypesInfo, e); ok {
+					labels[v] = true
+				}
+			}
+		}
+		return true
+	})
+	n := 0
+	for _, cl := range m.clauses {
+		reads := false
+		ast.Inspect(cl.cc, func(x ast.Node) bool {
+			if call, ok := x.(*ast.CallExpr); ok && readers[core.Callee(rinfo, call)] {
+				reads = true
+			}
+			return true
+		})
+		if !reads {
+			continue
+		}
+		for _, l := range cl.labels {
+			if l.back || l.back2 {
+				continue
+			}
+			n++
+			c.Check(labels[l.op], fmt.Sprintf("captureSlotsInUse / %s (reads capture state in the interpreter) keeps its group", m.opName[l.op]), cl.cc.Pos(),
+				"the interpreter's %s clause asks whether / where the group named by its operand matched, but captureSlotsInUse has no case for it: a group referenced only by this instruction is compiled out of the quick program and the instruction then sees 'never matched'", m.opName[l.op])
+		}
+	}
+	if n == 0 {
+		c.Anchor("interpreter clauses that read capture state")
+	}
+}
